@@ -169,8 +169,11 @@ theorem c06_second_evaluate_hits (W : World D S F) (hit : F → F → Bool) (hr 
 
 /-! ### data sets of different size: nothing is truncated -/
 
-/-- all arrays of one trial have that trial's number of events -/
-def C06.WellFormed (W : World D S F) : Prop := ∀ d s k g, (W.man d s k g).length = (W.bkg d s).length
+/-- all arrays of one trial have that trial's number of events, and (no event selection method) every
+source is paired with every event -/
+def C06.WellFormed (W : World D S F) : Prop :=
+  (∀ d s k g, (W.man d s k g).length = (W.bkg d s).length) ∧
+  (∀ d s k, W.sel d s k = List.range (W.bkg d s).length)
 
 /-- **sizes**: after any history (through trials of any sizes) an evaluation returns one block per
 source and every block has the number of events of the *current* trial — the `zipWith`s of the
@@ -185,7 +188,7 @@ theorem c06_no_truncation (W : World D S F) (v : Variant) (hit : F → F → Boo
   intro o n
   have ht := (c06_transparent W v hit cfg hs d0 s0 ops q).1
   have hsh := evalPure_shape W cfg.parabola (lastData d0 ops) (lastSrc s0 ops) q
-    (fun k g => hw _ _ k g) hq
+    (fun k g => hw.1 _ _ k g) (fun k => hw.2 _ _ k) hq
   have h1 : o.ratio = (evalPure W cfg.parabola (lastData d0 ops) (lastSrc s0 ops) q).1 :=
     congrArg Prod.fst ht
   have h2 : o.grad = (evalPure W cfg.parabola (lastData d0 ops) (lastSrc s0 ops) q).2 :=
@@ -639,14 +642,14 @@ local instance : OfScientific Int := ⟨fun m s e => if s then m / 10 ^ e else m
 /-- signal PDF value `d + g`, resp. `g²`; background 1; unit grid -/
 def C06.W0 : World Nat Nat Int :=
   { man := fun d _ _ g => [(d : Int) + g], bkg := fun _ _ => [1], up := (· + 1), lo := (· - 1), dx := 1,
-    inGrid := fun _ => true }
+    inGrid := fun _ => true, sel := fun _ _ _ => [0] }
 
 /-- `W0` with a grid that ends at 5 -/
 def C06.W2 : World Nat Nat Int := { C06.W0 with inGrid := fun g => decide (g ≤ 5) }
 
 def C06.W1 : World Nat Nat Int :=
   { man := fun _ _ _ g => [g * g], bkg := fun _ _ => [1], up := (· + 1), lo := (· - 1), dx := 1,
-    inGrid := fun _ => true }
+    inGrid := fun _ => true, sel := fun _ _ _ => [0] }
 
 /-- `numpy.isclose` with `rtol = 1e-5`, `atol = 1e-8` on grid indices of a grid with spacing 0.1
 (both sides scaled by 10⁸): `|a-b|·10⁷ ≤ 1 + 100·|b|` -/
@@ -695,10 +698,10 @@ theorem c06_stale_nsgrad_counterexample :
 /-- data set `d` has `d + 1` events -/
 def C06.W3 : World Nat Nat Int :=
   { man := fun d _ _ g => List.replicate (d + 1) ((d : Int) + g), bkg := fun d _ => List.replicate (d + 1) 1,
-    up := (· + 1), lo := (· - 1), dx := 1, inGrid := fun _ => true }
+    up := (· + 1), lo := (· - 1), dx := 1, inGrid := fun _ => true, sel := fun d _ _ => List.range (d + 1) }
 
 /-- `WellFormed` is inhabited by a world with data sets of different size … -/
-example : C06.WellFormed C06.W3 := by intro d s k g; simp [C06.W3]
+example : C06.WellFormed C06.W3 := ⟨by intro d s k g; simp [C06.W3], by intro d s k; simp [C06.W3]⟩
 
 /-- … and on the pinned commit (stuck state id) the stale coefficients of the one-event trial are
 zipped with the three-event background of the next trial: the answer has the *wrong shape*
@@ -711,6 +714,25 @@ theorem c06_stale_shape_counterexample :
     let st := runSt C06.W3 v (· == ·) cfg (fresh 0 0) [.evaluate q, .initTrial 2]
     (evalC C06.W3 (· == ·) cfg st q).2.ratio.map List.length = [1] ∧
     (evalPure C06.W3 false 2 0 q).1.map List.length = [3] := by decide
+
+/-- an event selection method with unequal blocks: three selected events, source 0 is paired with
+events 0 and 2, source 1 with event 1 only -/
+def C06.W4 : World Nat Nat Int :=
+  { man := fun d _ k g => if k = 0 then [(d : Int) + g, d + g + 2] else [d + g + 1],
+    bkg := fun _ _ => [1, 1, 1], up := (· + 1), lo := (· - 1), dx := 1, inGrid := fun _ => true,
+    sel := fun _ _ k => if k = 0 then [0, 2] else [1] }
+
+/-- non-vacuity of the event-selection branch: the theorems above hold for every world, in particular
+for one whose per-source blocks have different lengths (`n_values = 3 ≠ K·E = 6`); the stateless
+evaluator returns blocks of 2 and 1 values, and so does the cached one after a history -/
+theorem c06_event_selection_example :
+    let v : Variant := ⟨true, true, true, true⟩
+    let cfg : Cfg := ⟨false, false, false, true, false, true⟩
+    let q : Query Int := ⟨2, [0, 0], [0, 0]⟩
+    let st := runSt C06.W4 v (· == ·) cfg (fresh 0 0) [.evaluate q, .initTrial 1, .evaluate q]
+    (evalPure C06.W4 false 1 0 q).1 = [[1, 3], [2]] ∧
+    (evalC C06.W4 (· == ·) cfg st q).2.ratio = [[1, 3], [2]] ∧
+    (evalC C06.W4 (· == ·) cfg st q).2.interpHit = true := by decide
 
 /-- review round — `evaluate` that does not clear the cached ns-gradients first: after a *failed*
 evaluation (grid point 6 does not exist) the second derivative is that of the earlier point, where a
